@@ -2,7 +2,7 @@
 import os
 import re
 
-from engine import cc, cfg, lib
+from engine import facts, cc, cfg, lib
 from engine.facts import erase, short_loc, CACHE
 from engine.lib import A, qe
 from engine.table import Interp, Unknown, product
@@ -322,7 +322,7 @@ def tokens(s):
 
 
 def macro_tables(ctx, rule_ids=("C03.c", "C07.a")):
-    os.makedirs(os.path.join(CACHE, "gen"), exist_ok=True)
+    os.makedirs(facts.gen_dir(), exist_ok=True)
     lines = ["#include <trompeloeil.hpp>"]
     for i, (l, r) in enumerate(EQUIV):
         lines.append("@@L%d %s @@R%d %s @@E%d" % (i, l, i, r, i))
@@ -350,7 +350,7 @@ def macro_tables(ctx, rule_ids=("C03.c", "C07.a")):
 
 
 def c03c(ctx):
-    path = os.path.join(CACHE, "gen", "c03_types.cpp")
+    path = os.path.join(facts.gen_dir(), "c03_types.cpp")
     os.makedirs(os.path.dirname(path), exist_ok=True)
     with open(path, "w") as fh:
         fh.write(WITNESS)
